@@ -16,6 +16,10 @@ ASSUMPTIONS = [
 ]
 SPEC = {
     'quick': [('K9s', 'liq', 4),
+              ('K26', 'liq', 3),
+              ('K28', 'liq', 4),
+              ('K29', 'liq', 3),
+              ('K24', 'liq', 3),
               ('K20', 'std', 3),
               ('K20', 'small', 4),
               ('K0', 'std', 3),
